@@ -37,6 +37,13 @@ def get_key(obj, key):
     if isinstance(val, dict):
         if sub in val:
             return val[sub]
+        if "." in sub:                       # nested dictionaries such as extra.input.keywords
+            cur = val
+            for part in sub.split("."):
+                if not isinstance(cur, dict) or part not in cur:
+                    return None
+                cur = cur[part]
+            return cur
         if sub.startswith("(") and sub.endswith(")"):  # tuple keys such as moments.(1,c)
             a, b = sub[1:-1].split(",")
             return val.get((int(a), b))
@@ -81,6 +88,13 @@ def relate(before, after, cls, tol):
     if after is None:
         return "missing"
     if cls == "exact":
+        if isinstance(before, (dict, str, bool)) or isinstance(after, (dict, str, bool)) or (
+                isinstance(before, list) and isinstance(after, list) and any(isinstance(x, (dict, str)) or x is None for x in before)):
+            if before == after:
+                return "same"
+            if isinstance(before, str) and isinstance(after, str) and before.lower() == after.lower():
+                return "same-casefold"
+            return "differs"
         a, b = np.asarray(before), np.asarray(after)
         if a.shape != b.shape:
             if a.ndim == b.ndim and a.ndim >= 1 and b.shape[0] < a.shape[0] and np.array_equal(a[: b.shape[0]], b):
